@@ -464,12 +464,13 @@ impl<'a> CaseRunner<'a> {
         Step::Set(r, v) => self.drv.set(*r, *v),
         Step::Arm(o, r, on) => self.drv.arm(*o, *r, *on),
         Step::PanicAt(k) => { crate::cell::FAULTS.with(|f| f.borrow_mut().panic_at = Some(*k)); }
+        Step::PanicAtAny(k) => { crate::cell::FAULTS.with(|f| { let mut f = f.borrow_mut(); f.panic_at = Some(*k); f.crash_in_user_code = true; }); }
         Step::TopDown(roots) => {
           let rec = self.drv.session(None, roots);
           let fs = self.analyze(&rec, "top-down session", true);
           for fd in &fs { self.raise(fd, &rec, "top-down session"); }
           self.nontrivial(&rec, 0);
-          crate::cell::FAULTS.with(|f| f.borrow_mut().panic_at = None);
+          crate::cell::FAULTS.with(|f| { let mut f = f.borrow_mut(); f.panic_at = None; f.crash_in_user_code = false; });
           if let Some(m) = &rec.aborted { if self.opts.wellformed && abort_kind(m) != "injected-panic" { return Outcome { aborted: true }; } continue; }
           let known: BTreeSet<u32> = self.drv.shadow.known.clone();
           if known.iter().all(|k| roots.contains(k)) {
@@ -526,7 +527,8 @@ impl<'a> CaseRunner<'a> {
           }
           for fd in &fs { self.raise(fd, &rec, "bottom-up session"); }
           self.nontrivial(&rec, 0);
-          if rec.aborted.is_some() { if self.opts.wellformed { return Outcome { aborted: true }; } continue; }
+          crate::cell::FAULTS.with(|f| { let mut f = f.borrow_mut(); f.panic_at = None; f.crash_in_user_code = false; });
+          if let Some(m) = &rec.aborted { if self.opts.wellformed && abort_kind(m) != "injected-panic" { return Outcome { aborted: true }; } continue; }
           self.drv.pending.clear();
           if self.opts.c03_probe {
             let mut all: Vec<u32> = self.drv.shadow.known.iter().copied().collect();
